@@ -46,7 +46,7 @@ func searchSkeleton(c *Ctx, fn *ssa.Function) []string {
 		}
 		if depth < 2 {
 			for _, ci := range CallsOf(f) {
-				if sc := ci.Common().StaticCallee(); sc != nil && sc != fn && sc.Pkg == fn.Pkg && sc.Name() != fn.Name() && !c.Facts.MayLoad[sc] {
+				if sc := ir.Callee(ci.Common()); sc != nil && sc != fn && sc.Pkg == fn.Pkg && sc.Name() != fn.Name() && !c.Facts.MayLoad[sc] {
 					add(sc, depth+1)
 				}
 			}
@@ -203,6 +203,42 @@ func runPARSLICE(c *Ctx) {
 		}
 		for _, b := range fn.Blocks {
 			for _, ins := range b.Instrs {
+				// a slice helper applied to node.Key / node.Value (removeAt(node.Key, i)): the integer
+				// arguments are the "bounds" that both calls must agree on
+				if call, isCall := ins.(*ssa.Call); isCall {
+					if callee := ir.Callee(call.Call); callee != nil && callee.Blocks != nil && callee.Pkg != nil {
+						for ai, a := range call.Call.Args {
+							base, f, ok := nodeSliceRoot(a)
+							if !ok || (f != "Key" && f != "Value") {
+								continue
+							}
+							if _, isSlice := a.Type().Underlying().(*types.Slice); !isSlice {
+								continue
+							}
+							// only slice→slice helpers (insertAt, removeAt) reshape the list; a search over the keys does not
+							if rs := callee.Signature.Results(); rs.Len() != 1 || !types.Identical(call.Type(), a.Type()) {
+								continue
+							}
+							sig := callee.Name() + "("
+							for aj, o := range call.Call.Args {
+								if aj == ai {
+									sig += "_,"
+								} else if bt, ok := o.Type().Underlying().(*types.Basic); ok && bt.Info()&types.IsInteger != 0 {
+									sig += pathDesc(ir.Sym(o)) + ","
+								} else {
+									sig += "·,"
+								}
+							}
+							sig += ")"
+							k := key{fn, ir.Sym(ir.ResolveCell(base))}
+							if bounds[k] == nil {
+								bounds[k] = map[string]map[string]ssa.Instruction{"Key": {}, "Value": {}}
+							}
+							bounds[k][f][sig] = call
+						}
+					}
+					continue
+				}
 				sl, ok := ins.(*ssa.Slice)
 				if !ok {
 					continue
@@ -281,7 +317,7 @@ func runPARSLICE(c *Ctx) {
 // isKeyCompareCall: a call through a function value of the KeyCompare shape,
 // func(_, _ interface{}) (int, error).
 func isKeyCompareCall(call *ssa.Call) bool {
-	if call.Call.IsInvoke() || call.Call.StaticCallee() != nil {
+	if call.Call.IsInvoke() || ir.Callee(call.Call) != nil {
 		return false
 	}
 	sig := call.Call.Signature()
